@@ -466,11 +466,19 @@ fn make_summary_txs(
                 // Copy, and add add SFL
                 match &mut unsum_tx.action_specifics {
                     crate::portfolio::TxActionSpecifics::Sell(sell_specs) => {
+                        // A value the user forced ("-1.23!") must stay forced, or
+                        // it is rejected against the computed one when the summary
+                        // is read back.
+                        let was_forced = sell_specs
+                            .specified_superficial_loss
+                            .as_ref()
+                            .map(|s| s.force)
+                            .unwrap_or(false);
                         sell_specs.specified_superficial_loss = Some(SFLInput {
                             superficial_loss: LessEqualZeroDecimal::from(
                                 sfl.superficial_loss,
                             ),
-                            force: false,
+                            force: was_forced,
                         });
                     }
                     _ => {
